@@ -232,4 +232,228 @@ theorem writeLoop_terminates (E : Enc σ) (rank : σ → Nat) (hp : EncProgress 
               simp only [Writer.writeLoop, hz, hE, if_false, this]
               simp only [Bool.not_false, if_true]
               split <;> simp
+/-! ### `flush_or_close` -/
+
+theorem flushOrClose_ok (E : Enc σ) (op : Op) : ∀ (fuel : Nat) (w w' : Writer σ),
+    w.armed → Writer.flushOrClose E op fuel w = (w', .done (.ok ())) →
+    w'.armed ∧ w'.bufSize = w.bufSize ∧ w'.sink.tail = w.sink.tail ∧ w'.sink.fscript = w.sink.fscript ∧
+    (if op = .flush then E.hasMore w'.enc = false else E.isFinished w'.enc = true) ∧
+    ∃ (newE : List ERec) (newL : List LogE),
+      w'.elog = newE ++ w.elog ∧ w'.sink.log = newL ++ w.sink.log ∧
+      w'.sink.got = w.sink.got ++ emitted newE ∧ fed newE = [] ∧ newE ≠ [] ∧
+      (∀ e ∈ newL, e.faulty = false) ∧
+      (∀ r ∈ newE, r.op = op ∧ r.input = [] ∧ r.ans.ok = true ∧ r.cap = w.bufSize) := by
+  intro fuel
+  induction fuel with
+  | zero => intro w w' _ h; simp [Writer.flushOrClose] at h
+  | succ fuel ih =>
+    intro w w' harm h
+    simp only [Writer.flushOrClose] at h
+    split at h
+    · simp at h
+    · simp at h
+    · next w1 ans heq =>
+      obtain ⟨e1, e2, e3, e4, e5, e6, new, p, l1, l2, l3, l4, l5, l6⟩ := encodeAndHandOver_spec E w w1 op [] ans _ heq
+      obtain ⟨j1, j2, j3, j4⟩ := l6 rfl (Or.inl harm.2)
+      have harm1 : w1.armed := ⟨by rw [j4]; exact harm.1, by rw [j3]; exact harm.2⟩
+      have hfed : ([] : Bytes).take ans.consumed = [] := by simp
+      -- what one finished iteration contributes
+      have one : ∀ (hok : ans.ok = true), w1.armed ∧ w1.bufSize = w.bufSize ∧ w1.sink.tail = w.sink.tail ∧ w1.sink.fscript = w.sink.fscript ∧
+          ∃ (newE : List ERec) (newL : List LogE),
+            w1.elog = newE ++ w.elog ∧ w1.sink.log = newL ++ w.sink.log ∧
+            w1.sink.got = w.sink.got ++ emitted newE ∧ fed newE = [] ∧ newE ≠ [] ∧
+            (∀ e ∈ newL, e.faulty = false) ∧
+            (∀ r ∈ newE, r.op = op ∧ r.input = [] ∧ r.ans.ok = true ∧ r.cap = w.bufSize) := by
+        intro hok
+        refine ⟨harm1, e3, l4, l5, [⟨op, [], w.bufSize, ans, E.hasMore w1.enc, E.isFinished w1.enc⟩], new, by simp [e4], l1, by simp [l2, j1, emitted], by simp [fed], by simp, j2, ?_⟩
+        intro r hr; simp at hr; subst hr; exact ⟨rfl, rfl, hok, rfl⟩
+      -- what a further successful run contributes on top
+      have more : ∀ (hok : ans.ok = true), Writer.flushOrClose E op fuel w1 = (w', .done (.ok ())) →
+          w'.armed ∧ w'.bufSize = w.bufSize ∧ w'.sink.tail = w.sink.tail ∧ w'.sink.fscript = w.sink.fscript ∧
+          (if op = .flush then E.hasMore w'.enc = false else E.isFinished w'.enc = true) ∧
+          ∃ (newE : List ERec) (newL : List LogE),
+            w'.elog = newE ++ w.elog ∧ w'.sink.log = newL ++ w.sink.log ∧
+            w'.sink.got = w.sink.got ++ emitted newE ∧ fed newE = [] ∧ newE ≠ [] ∧
+            (∀ e ∈ newL, e.faulty = false) ∧
+            (∀ r ∈ newE, r.op = op ∧ r.input = [] ∧ r.ans.ok = true ∧ r.cap = w.bufSize) := by
+        intro hok hrec
+        obtain ⟨i1, i2, i3, i3', i4, newE, newL, k1, k2, k3, k4, k4', k5, k6⟩ := ih w1 w' harm1 hrec
+        refine ⟨i1, by rw [i2, e3], by rw [i3, l4], by rw [i3', l5], i4, newE ++ [⟨op, [], w.bufSize, ans, E.hasMore w1.enc, E.isFinished w1.enc⟩], newL ++ new, ?_, ?_, ?_, ?_, by simp, ?_, ?_⟩
+        · rw [k1, e4]; simp
+        · rw [k2, l1]; simp
+        · rw [k3, l2, j1, emitted_append]; simp [emitted]
+        · rw [fed_append, k4]; simp [fed]
+        · intro e he
+          rcases List.mem_append.mp he with h' | h'
+          · exact k5 e h'
+          · exact j2 e h'
+        · intro r hr
+          rcases List.mem_append.mp hr with h' | h'
+          · have := k6 r h'; rw [e3] at this; exact this
+          · simp at h'; subst h'; exact ⟨rfl, rfl, hok, rfl⟩
+      split at h
+      · split at h <;> simp at h
+      · next hok =>
+        have hok' : ans.ok = true := by simpa using hok
+        split at h
+        · next hop =>
+          split at h
+          · exact more hok' h
+          · next hm =>
+            simp only [Prod.mk.injEq] at h
+            obtain ⟨hw, _⟩ := h
+            subst hw
+            obtain ⟨a1, a2, a3, a4, a5⟩ := one hok'
+            exact ⟨a1, a2, a3, a4, by simpa [hop] using hm, a5⟩
+        · next hop =>
+          split at h
+          · next hfin =>
+            simp only [Prod.mk.injEq] at h
+            obtain ⟨hw, _⟩ := h
+            subst hw
+            obtain ⟨a1, a2, a3, a4, a5⟩ := one hok'
+            exact ⟨a1, a2, a3, a4, by simpa [hop] using hfin, a5⟩
+          · exact more hok' h
+theorem flushOrClose_prefix (E : Enc σ) (op : Op) : ∀ (fuel : Nat) (w : Writer σ),
+    w.armed →
+    ∃ (newE : List ERec) (newL : List LogE) (p : Bytes),
+      (Writer.flushOrClose E op fuel w).1.elog = newE ++ w.elog ∧
+      (Writer.flushOrClose E op fuel w).1.sink.log = newL ++ w.sink.log ∧
+      (Writer.flushOrClose E op fuel w).1.sink.got = w.sink.got ++ p ∧ p <+: emitted newE := by
+  intro fuel
+  induction fuel with
+  | zero => intro w _; exact ⟨[], [], [], by simp [Writer.flushOrClose]⟩
+  | succ fuel ih =>
+    intro w harm
+    simp only [Writer.flushOrClose]
+    split
+    · exact ⟨[], [], [], by simp⟩
+    · next w1 ans e heq =>
+      obtain ⟨e1, e2, e3, e4, e5, e6, new, p, l1, l2, l3, l4, l5, l6⟩ := encodeAndHandOver_spec E w w1 op [] ans _ heq
+      exact ⟨[⟨op, [], w.bufSize, ans, E.hasMore w1.enc, E.isFinished w1.enc⟩], new, p, by simp [e4], l1, l2, by simpa [emitted] using l3⟩
+    · next w1 ans heq =>
+      obtain ⟨e1, e2, e3, e4, e5, e6, new, p, l1, l2, l3, l4, l5, l6⟩ := encodeAndHandOver_spec E w w1 op [] ans _ heq
+      obtain ⟨j1, j2, j3, j4⟩ := l6 rfl (Or.inl harm.2)
+      have harm1 : w1.armed := ⟨by rw [j4]; exact harm.1, by rw [j3]; exact harm.2⟩
+      have one : ∃ (newE : List ERec) (newL : List LogE) (p : Bytes),
+          w1.elog = newE ++ w.elog ∧ w1.sink.log = newL ++ w.sink.log ∧ w1.sink.got = w.sink.got ++ p ∧ p <+: emitted newE :=
+        ⟨[⟨op, [], w.bufSize, ans, E.hasMore w1.enc, E.isFinished w1.enc⟩], new, p, by simp [e4], l1, l2, by simpa [emitted] using l3⟩
+      have more : ∃ (newE : List ERec) (newL : List LogE) (p : Bytes),
+          (Writer.flushOrClose E op fuel w1).1.elog = newE ++ w.elog ∧
+          (Writer.flushOrClose E op fuel w1).1.sink.log = newL ++ w.sink.log ∧
+          (Writer.flushOrClose E op fuel w1).1.sink.got = w.sink.got ++ p ∧ p <+: emitted newE := by
+        obtain ⟨newE, newL, p', k1, k2, k3, k4⟩ := ih w1 harm1
+        refine ⟨newE ++ [⟨op, [], w.bufSize, ans, E.hasMore w1.enc, E.isFinished w1.enc⟩], newL ++ new, ans.produced ++ p', ?_, ?_, ?_, ?_⟩
+        · rw [k1, e4]; simp
+        · rw [k2, l1]; simp
+        · rw [k3, l2, j1]; simp
+        · rw [emitted_append]; simp only [emitted, List.reverse_cons, List.reverse_nil, List.nil_append, List.map_cons, List.map_nil, List.flatten_cons, List.flatten_nil, List.append_nil]
+          exact (List.prefix_append_right_inj _).mpr k4
+      split
+      · split
+        · exact one
+        · exact one
+      · split
+        · split
+          · exact more
+          · exact one
+        · split
+          · exact one
+          · exact more
+
+theorem flushOrClose_no_panic (E : Enc σ) (hs : EncSane E) (op : Op) : ∀ (fuel : Nat) (w : Writer σ),
+    w.armed → (Writer.flushOrClose E op fuel w).2 ≠ .panic := by
+  intro fuel
+  induction fuel with
+  | zero => intro w _; simp [Writer.flushOrClose]
+  | succ fuel ih =>
+    intro w harm
+    simp only [Writer.flushOrClose]
+    split
+    · next heq => obtain ⟨x, hx⟩ := encodeAndHandOver_some E hs w op []; rw [hx] at heq; simp at heq
+    · simp
+    · next w1 ans heq =>
+      obtain ⟨e1, e2, e3, e4, e5, e6, new, p, l1, l2, l3, l4, l5, l6⟩ := encodeAndHandOver_spec E w w1 op [] ans _ heq
+      obtain ⟨j1, j2, j3, j4⟩ := l6 rfl (Or.inl harm.2)
+      have harm1 : w1.armed := ⟨by rw [j4]; exact harm.1, by rw [j3]; exact harm.2⟩
+      split
+      · rw [if_pos harm1.1]; simp
+      · split
+        · split
+          · exact ih w1 harm1
+          · simp
+        · split
+          · simp
+          · exact ih w1 harm1
+
+theorem flushOrClose_terminates (E : Enc σ) (rank : σ → Nat) (hp : EncProgress E rank) (op : Op) (hop : op ≠ .process) :
+    ∀ (R : Nat) (w : Writer σ), rank w.enc = R → 0 < w.bufSize →
+      ∃ N, ∀ fuel, N ≤ fuel → (Writer.flushOrClose E op fuel w).2 ≠ .livelock := by
+  intro R
+  induction R using Nat.strongRecOn with
+  | ind R ihR =>
+    intro w hR hB
+    cases hE : w.encodeAndHandOver E op [] with
+    | none =>
+      refine ⟨1, ?_⟩
+      intro fuel hf
+      obtain ⟨f, rfl⟩ : ∃ f, fuel = f + 1 := ⟨fuel - 1, by omega⟩
+      simp [Writer.flushOrClose, hE]
+    | some x =>
+      obtain ⟨w1, ans, r⟩ := x
+      cases r with
+      | error e =>
+        refine ⟨1, ?_⟩
+        intro fuel hf
+        obtain ⟨f, rfl⟩ : ∃ f, fuel = f + 1 := ⟨fuel - 1, by omega⟩
+        simp [Writer.flushOrClose, hE]
+      | ok u =>
+        cases u
+        obtain ⟨e1, e2, e3, e4, e5, e6, _⟩ := encodeAndHandOver_spec E w w1 op [] ans _ hE
+        have hc : ans.consumed = 0 := by simpa using e5
+        by_cases hok : ans.ok = true
+        · -- does the loop go on?
+          by_cases hgo : (op = .flush ∧ E.hasMore w1.enc = true) ∨ (op ≠ .flush ∧ E.isFinished w1.enc = false)
+          · have hdem : Demanded E w1.enc op [] := by
+              rcases hgo with ⟨h1, h2⟩ | ⟨h1, h2⟩
+              · exact Or.inr (Or.inr ⟨h1, h2⟩)
+              · refine Or.inr (Or.inl ⟨?_, h2⟩)
+                cases op <;> simp_all
+            have hlt : rank w1.enc < R := by
+              rw [← hR, e1]
+              apply hp.stall w.enc op [] w.bufSize hB
+              · rw [← e2]; exact hok
+              · rw [← e2]; exact hc
+              · rw [← e1]; exact hdem
+            obtain ⟨N, hN⟩ := ihR (rank w1.enc) hlt w1 rfl (by rw [e3]; exact hB)
+            refine ⟨N + 1, ?_⟩
+            intro fuel hf
+            obtain ⟨f, rfl⟩ : ∃ f, fuel = f + 1 := ⟨fuel - 1, by omega⟩
+            simp only [Writer.flushOrClose, hE, hok]
+            have hf' : N ≤ f := by omega
+            rcases hgo with ⟨h1, h2⟩ | ⟨h1, h2⟩
+            · subst h1; simp only [h2]; simpa using hN f hf'
+            · simp only [h1, h2]; simpa using hN f hf'
+          · refine ⟨1, ?_⟩
+            intro fuel hf
+            obtain ⟨f, rfl⟩ : ∃ f, fuel = f + 1 := ⟨fuel - 1, by omega⟩
+            simp only [Writer.flushOrClose, hE, hok]
+            by_cases h1 : op = .flush
+            · have h2 : E.hasMore w1.enc = false := by
+                cases hm : E.hasMore w1.enc
+                · rfl
+                · exact absurd (Or.inl ⟨h1, hm⟩) hgo
+              simp [h1, h2]
+            · have h2 : E.isFinished w1.enc = true := by
+                cases hm : E.isFinished w1.enc
+                · exact absurd (Or.inr ⟨h1, hm⟩) hgo
+                · rfl
+              simp [h1, h2]
+        · refine ⟨1, ?_⟩
+          intro fuel hf
+          obtain ⟨f, rfl⟩ : ∃ f, fuel = f + 1 := ⟨fuel - 1, by omega⟩
+          have : ans.ok = false := by simpa using hok
+          simp only [Writer.flushOrClose, hE, this]
+          simp only [Bool.not_false, if_true]
+          split <;> simp
 end BV.Adapters
